@@ -401,8 +401,9 @@ func fuzzy(elems []any, nonTerminals []lex.Token, defaultField string) ([]any, [
 		return elems, nonTerminals, false
 	}
 
-	idistance, err := strconv.Atoi(distance.String())
-	if err != nil {
+	// the distance must be written as a plain number
+	idistance, ok := distance.Left.(int)
+	if !ok || distance.Op != expr.Literal {
 		return elems, nonTerminals, false
 	}
 
@@ -443,6 +444,11 @@ func boost(elems []any, nonTerminals []lex.Token, defaultField string) ([]any, [
 
 	power, ok := elems[2].(*expr.Expression)
 	if !ok {
+		return elems, nonTerminals, false
+	}
+
+	// the power must be written as a plain number
+	if power.Op != expr.Literal || !isNumber(power.Left) {
 		return elems, nonTerminals, false
 	}
 
@@ -510,6 +516,16 @@ func rangeop(elems []any, nonTerminals []lex.Token, defaultField string) ([]any,
 // isTerm checks whether an expression is a single term (a literal, a wildcard or a regexp).
 func isTerm(e *expr.Expression) bool {
 	return e != nil && (e.Op == expr.Literal || e.Op == expr.Wild || e.Op == expr.Regexp)
+}
+
+// isNumber checks whether a literal value is a number.
+func isNumber(in any) bool {
+	switch in.(type) {
+	case int, float64:
+		return true
+	default:
+		return false
+	}
 }
 
 func drop[T any](stack []T, i int) []T {
